@@ -369,10 +369,12 @@ func Rejected() {
 		{"ftri(n, s, true, n)", "ftri"}, {"fm(n, s)", "fm"}, {"fm(n, {k: 1}, n)", "fm"}, {"fh(n, n)", "fh"}, {"fhi(n, s)", "fhi"},
 		{"fmh(n, n)", "fmh"}, {"fmh(n, {k: 1}, n)", "fmh"}, {"fv(s)", "fv"}, {"fv(n, s)", "fv"}, {"fsv(n)", "fsv"}, {"fsv(s, n)", "fsv"},
 		{"fint(1.5)", "fint"}, {"fint(true)", "fint"}, {"fint([1])", "fint"}, {"fp(n, nil, nil)", "fp"},
+		// an argument that is not there is not made up: only a trailing options map and / or helper context is supplied
+		{"fint()", "fint"}, {"fstr()", "fstr"}, {"ftri(n)", "ftri"}, {"ftri(n, s)", "ftri"}, {"ftri()", "ftri"}, {"fh()", "fh"}, {"fmh()", "fmh"}, {"fhi()", "fhi"},
 	}
 	c := cases[vrt.Choice(len(cases))]
 	out, err := render("[<%= "+c.call+" %>]", ctx)
-	vrt.Assert(err != nil, "too many arguments / an unassignable argument is an error: "+c.call)
+	vrt.Assert(err != nil, "too many arguments / a missing argument / an unassignable argument is an error: "+c.call)
 	vrt.Assert(len(r.log) == 0, "the function is not invoked when its arguments are rejected: "+c.call)
 	vrt.Assert(out == "", "an error comes with empty output")
 	if err != nil {
